@@ -85,7 +85,10 @@ def render(net, lex, opts=None):
         kids.extend(sig_elems)
         if L.level and L.rng.random() < 0.3:
             kids = L.order(kids)
-        mattrs = [("id", "0x%X" % f["id"]), ("name", f["name"]), ("length", f["size"]),
+        # length is optional ("auto": the smallest length that holds all signals): leave it out when that is the described length
+        needed = (max([N.internal_start(s) + s["size"] for s in f["signals"]] + [0]) + 7) // 8
+        omit_len = bool(L.level and needed == f["size"] and L.rng.random() < 0.7)
+        mattrs = [("id", "0x%X" % f["id"]), ("name", f["name"]), ("length", None if omit_len else f["size"]),
                   ("format", "extended" if f["ext"] else (None if not (L.level and L.rng.random() < 0.5) else "standard"))]
         if f.get("cycle"):
             mattrs.append(("interval", f["cycle"]))
